@@ -43,8 +43,9 @@ EndsWithRet(fin) == fin.status = "ret"
 Path(fin) == [k \in 1 .. Len(fin.ev) |-> fin.ev[k].i]
 
 (* the cycle-accurate MVP-4 model (spec/Mvp4) is evaluated for short runs when the harness asks for it *)
-Cyc4On == "VERIF_CYC4" \in DOMAIN IOEnv /\ IOEnv.VERIF_CYC4 = "1"
-Cyc4MaxN == 48
+Cyc4On == "VERIF_CYC4" \in DOMAIN IOEnv /\ IOEnv.VERIF_CYC4 \in {"1", "2"}
+(* runs of at most this many executed instructions ("2" = thorough tier: the evaluation of long runs is slow in TLC) *)
+Cyc4MaxN == IF IOEnv.VERIF_CYC4 = "2" THEN 300 ELSE 48
 
 CaseRec(fam, prog, regs0, img, memSize, fin, focusRegs, focusAddrs, tags, extra) ==
   [ mem0 |-> <<>>, fam |-> fam, prog |-> prog, regs0 |-> IntRegs(regs0), img |-> img, memSize |-> memSize,
